@@ -469,7 +469,8 @@ CONFIG_WATCHDOG_S = 300
 WRITE_BOUND = 2_000_000
 
 PINNED = [
-    # irregular source chunking whose largest chunk equals the tile size (D37)
+    # tall tiles: 31 added pixels make a second tile row (second guise of D36, thorough seed 9)
+    dict(ny=33, nx=337, layout="YX", ns=1, dtype="uint32", chunks=[200, 16], band_chunk=1, nodata=0, blocksize=[[48, 16], 16], compression="lzw", predictor=True, spill_sz=0, writes_per_chunk=1, stats=True, bigtiff=True, scheduler="sync", workers=2, order_seed=38, data_seed=38, crs="EPSG:3857"),    # irregular source chunking whose largest chunk equals the tile size (D37)
     dict(ny=64, nx=64, layout="YX", ns=1, dtype="uint16", chunks=[16, 64], band_chunk=1, nodata=None, blocksize=None, compression="deflate", predictor=None, spill_sz=None, writes_per_chunk=None, stats=True, bigtiff=True, scheduler="sync", workers=2, order_seed=36, data_seed=36, crs="EPSG:3857", irregular_chunks=True),
     dict(ny=70, nx=100, layout="SYX", ns=2, dtype="int16", chunks=[16, 16], band_chunk=1, nodata=-9999, blocksize=[16], compression="zstd", predictor=None, spill_sz=1024, writes_per_chunk=2, stats=False, bigtiff=True, scheduler="threads", workers=4, order_seed=37, data_seed=37, crs="EPSG:4326", irregular_chunks=True),    # more than 16 tiles across and not a multiple of 2**levels: the padded layout has whole tile rows / columns the data does not have (D36)
     dict(ny=520, nx=100, layout="YX", ns=1, dtype="uint16", chunks=[64, 64], band_chunk=1, nodata=None, blocksize=[16], compression="deflate", predictor=None, spill_sz=None, writes_per_chunk=None, stats=True, bigtiff=True, scheduler="sync", workers=2, order_seed=33, data_seed=33, crs="EPSG:3857"),
